@@ -614,19 +614,40 @@ def body (cfg : Cfg) (st : St) (pfx : Str) : Cmd → St × Bool
          | .ok caps' => (flushC (st.putChan chan { c with caps := caps' }), true)
          | .error _ => (flushC (st.putChan chan c), false))
 
-/-- what lets a caller run the command at all: the gate; the `private` converter is satisfied by
-construction; Owner/Config commands additionally need the `owner` capability -/
-def allowed (st : St) (pfx : Str) (c : Cmd) : Bool :=
+/-- `callbacks.checkCommandCapability` for a message sent in channel `ch`: besides `-name` the
+channel's `#ch,-name` refuses; `#ch,name` admits like `name`; the default applies only if the
+channel's `defaultAllow` is on as well -/
+def St.gateIn (st : St) (pfx ch : Str) (path : List Str) : Bool :=
+  let names := (match path.getLast? with | some y => [y] | none => []) ++ (prefixes path).map dotted
+  names.all (fun n =>
+    st.check pfx ('-' :: n) = some false &&
+    (match C03.makeChannelCapability ch ('-' :: n), C03.makeChannelCapability ch n with
+     | .ok an, .ok cn =>
+       st.check pfx an = some false &&
+       ((st.defaultFlag && (st.chan ch).defaultAllow) || st.check pfx n = some true || st.check pfx cn = some true)
+     | _, _ => false))
+
+def St.gateAt (st : St) (pfx : Str) (ch : Option Str) (path : List Str) : Bool :=
+  match ch with
+  | none => st.gate pfx path
+  | some ch => st.gateIn pfx ch path
+
+/-- what lets a caller run the command at all: the gate (the `private` converter is dealt with in
+`Cmd.inChannel`); Owner/Config commands additionally need the `owner` capability.
+`ch` = the channel the message was sent in (`none`: a private message) -/
+def allowed (st : St) (pfx : Str) (c : Cmd) (ch : Option Str) : Bool :=
+  let gate := st.gateAt pfx ch c.path
   match c with
   | .flushReload => true
   | .reload => true
   | .flushAll => true
   | .upkeep _ => true
-  | .configCaps _ => st.gate pfx c.path && st.check pfx C03.ownerS = some true
-  | _ => st.gate pfx c.path
+  | .configCaps _ => gate && st.check pfx C03.ownerS = some true
+  | _ => gate
 
-/-- one command from the hostmask `pfx` -/
-def step (cfg : Cfg) (st : St) (pfx : Str) (c : Cmd) : St × Bool :=
+/-- one command from the hostmask `pfx`, sent privately (`ch = none`) or in channel `ch`; for a
+channel message `c` is the command as the converters see it (`Cmd.inChannel`) -/
+def step (cfg : Cfg) (st : St) (pfx : Str) (c : Cmd) (ch : Option Str) : St × Bool :=
   match c with
   | .flushReload => body cfg st pfx c          -- not an IRC command: the harness calls flush()/reload()
   | .reload => body cfg st pfx c
@@ -634,7 +655,38 @@ def step (cfg : Cfg) (st : St) (pfx : Str) (c : Cmd) : St × Bool :=
   | .upkeep _ => body cfg st pfx c
   | _ =>
     if st.ignored pfx then (st, false)          -- Owner.doPrivmsg drops the message
-    else if allowed st pfx c then body cfg st pfx c else (st, false)
+    else if allowed st pfx c ch then body cfg st pfx c else (st, false)
+
+/-! ## messages sent in a channel -/
+
+/-- the commands whose `wrap` list starts with `private` (Props: `private_table`) -/
+def Cmd.isPrivate : Cmd → Bool
+  | .register .. => true
+  | .unregister .. => true
+  | .changename .. => true
+  | .identify .. => true
+  | .hostmaskAdd .. => true
+  | .hostmaskRemove .. => true
+  | .setPassword .. => true
+  | .setSecure .. => true
+  | _ => false
+
+/-- what the argument list of `c` amounts to when the message is sent in channel `ch`: `private`
+commands are refused; the `op` converter takes a first argument that is not a channel name for
+the *next* argument and the channel from the message — the commands with a fixed number of
+arguments then have one too many (`none`: an error reply), `capability set/unset` take it as one
+more capability for `ch` -/
+def Cmd.inChannel (ch : Str) (c : Cmd) : Option Cmd :=
+  if c.isPrivate then none else
+  match c with
+  | .chanCapAdd chan _ _ => if C03.isChannel chan then some c else none
+  | .chanCapRemove chan _ _ => if C03.isChannel chan then some c else none
+  | .chanSetDefault chan _ => if C03.isChannel chan then some c else none
+  | .chanDisable chan _ _ => if C03.isChannel chan then some c else none
+  | .chanEnable chan _ _ => if C03.isChannel chan then some c else none
+  | .chanCapSet chan caps => if C03.isChannel chan then some c else some (.chanCapSet ch (chan :: caps))
+  | .chanCapUnset chan caps => if C03.isChannel chan then some c else some (.chanCapUnset ch (chan :: caps))
+  | _ => some c
 
 /-! ## the order in which capability sets were written
 
@@ -678,11 +730,17 @@ def St.fileOrderOk (st : St) (uo : List (Nat × List Str)) (co : List (Str × Li
 of `Cmd`), or the environment fixing the written order of capability sets -/
 inductive Ev
   | cmd (pfx : Str) (c : Cmd)
+  /-- the same, sent to channel `ch` (addressed to the bot) -/
+  | cmdIn (ch pfx : Str) (c : Cmd)
   | order (uo : List (Nat × List Str)) (co : List (Str × List Str))
 deriving Repr
 
 def stepEv (cfg : Cfg) (st : St) : Ev → St
-  | .cmd pfx c => (step cfg st pfx c).1
+  | .cmd pfx c => (step cfg st pfx c none).1
+  | .cmdIn ch pfx c =>
+    (match c.inChannel ch with
+     | some c' => (step cfg st pfx c' (some ch)).1
+     | none => st)
   | .order uo co => st.fileOrder uo co
 
 def runEv (cfg : Cfg) (st : St) : List Ev → St
